@@ -288,6 +288,13 @@ def base_queries(backend, tier):
         "Select(EventDataset('ds'), lambda e: (e.PRIM('A').Select(lambda j: j.pt()), e.SEC('B').Select(lambda t: t.pt()), e.PRIM('A').Count()))",
         "Select(EventDataset('ds'), lambda e: e.PRIM('A').Select(lambda j: e.SEC('B').Select(lambda t: e.PRIM('A').Where(lambda k: k.pt() > t.pt()).Count() + t.eta()).Sum() + j.eta()))",
     ]
+    # steps that func_adl fuses (Where after Where / SelectMany / Select) under an enclosing lambda whose parameter an inner one may shadow
+    qs += [
+        "Select(EventDataset('ds'), lambda e: e.SEC('B').Select(lambda t: e.PRIM('A').SelectMany(lambda j: j.vals()).Where(lambda v: v > t.pt()).Count()))",
+        "Select(EventDataset('ds'), lambda e: e.PRIM('A').Where(lambda j: j.pt() > 1.5).Where(lambda k: e.SEC('B').Where(lambda t: t.pt() > 1).Count() > 0).Count())",
+        "Select(EventDataset('ds'), lambda e: e.SEC('B').Select(lambda t: e.PRIM('A').Select(lambda j: j.pt()).Select(lambda p: p + t.pt()).Sum()))",
+        "Select(EventDataset('ds'), lambda e: e.SEC('B').Select(lambda t: e.PRIM('A').Where(lambda j: j.pt() > 1.5).Where(lambda k: k.eta() > t.pt()).Count()))",
+    ]
     if backend == "atlas":
         # injected (built-in) methods / functions called with the same arguments on DIFFERENT objects in nested lambdas: whatever the
         # parameters are called, each call is about its own receiver
